@@ -40,6 +40,46 @@ pub fn run(ctx: &Ctx, out: &mut Out) {
         let (text, ex, _gr) = blanket_program(&mut rng);
         jobs.push((text, ex));
     }
+    // impls with TWO parameters over a trait with a parameter (`impl<P0, P1> T<P1> for W<P0>`): an
+    // answer then binds an earlier unknown to a generic type and leaves the last one free
+    // (`[W<^0>, ^1]`); declared before, between or after concrete impls of the same trait
+    let n2 = ctx.budget(80, 3000);
+    for i in 0..n2 {
+        let mut rng = ctx.rng(6, i as u64);
+        let mut items = vec![
+            "struct A {}".to_string(),
+            "struct B {}".to_string(),
+            "struct C {}".to_string(),
+            "struct W<T> {}".to_string(),
+            "trait Conv<U> {}".to_string(),
+        ];
+        let pool = [
+            "impl<P0, P1> Conv<P1> for W<P0> {}",
+            "impl<P0, P1> Conv<W<P1>> for W<P0> {}",
+            "impl<P0> Conv<P0> for W<P0> {}",
+            "impl Conv<A> for B {}",
+            "impl Conv<C> for A {}",
+            "impl Conv<B> for B {}",
+            "impl<P0> Conv<W<P0>> for C {}",
+            "impl<P0> Conv<A> for W<P0> where P0: Conv<A> {}",
+        ];
+        let k = 2 + rng.usize_below(3);
+        let mut chosen: Vec<&str> = vec![];
+        while chosen.len() < k {
+            let c = *rng.pick(&pool);
+            if !chosen.contains(&c) {
+                chosen.push(c);
+            }
+        }
+        items.extend(chosen.iter().map(|c| c.to_string()));
+        let goals = vec![
+            "exists<X, Y> { X: Conv<Y> }".to_string(),
+            "exists<X, Y> { W<X>: Conv<Y> }".to_string(),
+            "exists<X, Y> { X: Conv<W<Y>> }".to_string(),
+            "exists<X> { X: Conv<A> }".to_string(),
+        ];
+        jobs.push((items.join("\n"), goals));
+    }
     for (jidx, (text, goals)) in jobs.into_iter().enumerate() {
         if !ctx.mine(jidx) {
             continue;
